@@ -95,7 +95,7 @@ CHECKS = {
              "rule), all strings <=6 over {00,01,80,ff}, and every chunking into <=3 writes; Sum/Sum64/Reset. (b) for every single-record RDB of the "
              "catalogue, every byte position x all 255 other values must make header, parsing or the end-of-file check fail; the intact file must pass. "
              "(c) every DUMP payload: intact accepted by DecodeDump and CheckVersionChecksum, every substitution, every truncation below 10 bytes and "
-             "correctly re-sealed payloads with versions above the supported one rejected. Every intact RDB is also parsed with a short read at every byte position (bare and below a 16-byte bufio.Reader) and 1, 3 and 7 bytes at a time.",
+             "correctly re-sealed payloads with versions above the supported one rejected. Every intact RDB is also parsed with a short read at every byte position (bare and below a 16-byte bufio.Reader) and 1, 3 and 7 bytes at a time. The concurrent-loader -race pass makes the very first use of loader, digest and decoder in its process concurrent (eight loaders behind a barrier, the solo reference is produced afterwards) and runs in twelve fresh processes.",
         note="trusts crcref (bitwise CRC-64/Jones, checked against e9c6d914c4b8d9ca) and rdbgen; artefacts longer than 700 bytes are substituted in their first and last 320 bytes only (stated in bounds)",
         rule="case = (artefact, position, substituted byte) or (input, chunking); non-trivial = distinct artefacts / inputs for which the real checker's verdict is compared with the expected one",
         parts=[
@@ -143,7 +143,7 @@ CHECKS = {
              "databases and a foreign value under the checkpoint name. The real LoadCheckpoint (real redigo client, dial hook) runs on every distinct state. "
              "Oracle: a set-valued reference (any database holding the maximal offset of OUR source is acceptable, because the scan order is a Go map order), "
              "its run id and database or unknown/no database, -1 when none, refusal when that checkpoint's version is too old; afterwards foreign fields and the "
-             "chosen database untouched and our stale fields removed elsewhere. Third part (TestVerif_C14R): whole DbSyncer.Sync() runs against three model source nodes and a model target. A fresh run stores its checkpoint; a restarted process has its first 0, 1 or 2 PSYNCs refused (-NOMASTERLINK), which starts Sync() again on the same object; standalone sources and cluster sources with three slot ranges. Every PSYNC must ask for the continuation of the stored checkpoint (run id, offset+1), no further checkpoint key may appear on the target, the stored offset ends at the end of the stream and the counter incremented before and after the restart is 2.",
+             "chosen database untouched and our stale fields removed elsewhere. Third part (TestVerif_C14R): whole DbSyncer.Sync() runs against three model source nodes and a model target. A fresh run stores its checkpoint; a restarted process has its first 0, 1 or 2 PSYNCs refused (-NOMASTERLINK), which starts Sync() again on the same object; standalone sources and cluster sources with three slot ranges. Every PSYNC must ask for the continuation of the stored checkpoint (run id, offset+1), no further checkpoint key may appear on the target, the stored offset ends at the end of the stream and the counter incremented before and after the restart is 2. Every state reachable with at most two writes is also evaluated with one lookup command (EXISTS or HGETALL) refused with -LOADING in one database: the load must then report an error, never go on with what it saw elsewhere.",
         note="trusts mredis (HGETALL/HDEL/EXISTS/INFO keyspace) and redigo; the reference function is a direct transcription of the statement",
         rule="state = canonical target keyspace (per database: checkpoint fields, data flag); transition = one write applied to the model state; every distinct state is evaluated once on the real code; non-trivial = the state holds at least one checkpoint field or foreign value (outcome other than 'none')",
         parts=[dict(pkg="./redis-shake/checkpoint", harness=["checkpoint"], test="^TestVerif_C14$", shards=16, budget=dict(quick=60, thorough=900)),
@@ -159,7 +159,7 @@ CHECKS = {
              "INFO without role line, slave, slave with a misleading earlier line, master, master with the role line late) is the explorer's choice; the "
              "back-off sleeps run on testing/synctest's fake clock. Full product over all rounds for maxRetries 1 and 2, all-fail default with <=2/3 deviating "
              "answers for the production value 6. Oracle: success iff the final round contains a node answering master, that node is the chosen source, "
-             "source+replicas is exactly the known node list, failure only after maxRetries+1 rounds and exactly the expected back-off, receiver state unchanged. Third part (TestVerif_C20R): the same whole-Sync() harness with the master role moving between the attempts of one syncer object: every sequence of masters over 1, 2 and 3 attempts (39 scenarios). Every PSYNC must go to the node that is master at that moment, discovery must end (no abort), and the syncer's node must name the master as source and the two other nodes as replicas. The real-factory part also runs with nodes that refuse connections (every subset pattern of one, two or three nodes down) with source.tls_enable off and on: with TLS the model nodes speak TLS with certificates of a harness CA the process trusts (SSL_CERT_FILE), through the tls.Dial seam. A reachable master must be found; when the only master is down the answer is an error after the retries, never a crash. The per-node answers include a node that answers NOAUTH (its password differs from the configured one).",
+             "source+replicas is exactly the known node list, failure only after maxRetries+1 rounds and exactly the expected back-off, receiver state unchanged. Third part (TestVerif_C20R): the same whole-Sync() harness with the master role moving between the attempts of one syncer object: every sequence of masters over 1, 2 and 3 attempts (39 scenarios). Every PSYNC must go to the node that is master at that moment, discovery must end (no abort), and the syncer's node must name the master as source and the two other nodes as replicas. The real-factory part also runs with nodes that refuse connections (every subset pattern of one, two or three nodes down) with source.tls_enable off and on: with TLS the model nodes speak TLS with certificates of a harness CA the process trusts (SSL_CERT_FILE), through the tls.Dial seam. A reachable master must be found; when the only master is down the answer is an error after the retries, never a crash. The per-node answers include a node that answers NOAUTH (its password differs from the configured one). The restart part also has attempts at which no node reports the master role (bounded retries, then an error; never a PSYNC to a replica), with the full node list and with a shard known through a single node.",
         note="trusts testing/synctest's fake clock (A1); the fake connection implements redigo.Conn directly (no network layer involved in this property)",
         rule="case = one complete sequence of probe answers; states = distinct answer sequences; transitions = probes; non-trivial = every completed execution (each is judged against the expected outcome)",
         parts=[dict(pkg="./redis-shake/dbSync/slotsupervisor", harness=["slotsupervisor"], test="^TestVerif_C20$", shards=16, budget=dict(quick=60, thorough=900)),
@@ -194,7 +194,7 @@ CHECKS = {
              "[wpos-cap, wpos] at some moment of the call; never a success for an offset outside the range during the whole call; blocked readers are woken "
              "by every write and by close (lost wake-up invariant on the shim's wait queue, deadlock detection); DataRange/IsValid/NewReader agree with the "
              "log. Sequentially all words up to length 5 (6) over writes of sizes up to 2cap+1, ReadAt/Seek at offsets around both ends of the data range, "
-             "reader operations and Close are checked after every step. Free-running -race pass of the same bodies. Two scenarios park three readers at the write position with fewer writes than readers and nobody closing: every one of them must be released. Rings are also started from a non-initial absolute position (the state after that many bytes were written long ago; offsets of the scenario are relative to it): the sequential words and seven scheduled scenarios run on the non-power-of-two ring just below 2^32, so that positions cross the 32-bit boundary without writing 4 GiB first. Writes of runs of zero bytes (4095, 4096, 4097, 8192 bytes and a whole ring) over the previous lap's data on both backends: the bytes read back must be the zeros written, not the older data.",
+             "reader operations and Close are checked after every step. Free-running -race pass of the same bodies. Two scenarios park three readers at the write position with fewer writes than readers and nobody closing: every one of them must be released. Rings are also started from a non-initial absolute position (the state after that many bytes were written long ago; offsets of the scenario are relative to it): the sequential words and seven scheduled scenarios run on the non-power-of-two ring just below 2^32, so that positions cross the 32-bit boundary without writing 4 GiB first. Writes of runs of zero bytes (4095, 4096, 4097, 8192 bytes and a whole ring) over the previous lap's data on both backends: the bytes read back must be the zeros written, not the older data. Offsets at the top of the uint64 range (an 'unknown offset' -1, write position minus capacity before the first wrap) are among the read and seek offsets of the sequential words.",
         note="the scheduler is sequentially consistent and switches only at Lock/Wait/thread end; the custom close error is not required to be the one reported (the statement only asks for an error); file backend reduced, thorough only",
         rule="execution = one schedule of one scenario or one sequential word; states = distinct observable histories per scenario plus distinct words; transitions = scheduling steps / operations; non-trivial = all",
         parts=[dict(pkg="./pkg/libs/io/backlog", harness=["backlog"], test="^TestVerif_C18$", race_test="^TestVerif_C18Race$", race=True, race_shards=4, shards=16,
@@ -310,7 +310,7 @@ CHECKS = {
              "2, 3, 8. The output is parsed back: the multiset of JSON lines must equal one line per string / list element with index / hash field / set member / zset "
              "member (score numerically equal), with db, type, expiry and base64 fields decoding to the exact bytes, plus one line per script, nothing else. For the "
              "worker hand-offs, decoderMain workers (1-3) run on channels the harness owns and every order of feeding entries and draining results is enumerated with "
-             "the workers run to quiescence in between. One RDB holds a set whose decoded text exceeds the 8 MB writer buffer next to small keys: 2 and 3 workers, feed/drain orders within 1 (thorough 2) deviations. The whole-command runs set source.rdb.parallel the way the start-up checks leave it for decode (the number of inputs; 1 for every second file).",
+             "the workers run to quiescence in between. One RDB holds a set whose decoded text exceeds the 8 MB writer buffer next to small keys: 2 and 3 workers, feed/drain orders within 1 (thorough 2) deviations. The whole-command runs set source.rdb.parallel the way the start-up checks leave it for decode (the number of inputs; 1 for every second file). Key names and script bodies contain characters that mean something to a formatter or a JSON writer (%, backslash, <, &, U+2028).",
         note="the internal channel hand-offs of decode() itself are not interceptable without rewriting the function: they are covered by the owned-channel exploration of the worker function and by running the whole pipeline at several parallel degrees (stated limitation); streams and NaN scores are not decodable by design",
         rule="case = (file, parallel) or (entries, workers, feed/drain order); non-trivial = all (each compares the parsed output with the expected multiset)",
         parts=[dict(pkg="./redis-shake", harness=["run"], test="^TestVerif_C17$", shards=16, gomaxprocs=4, budget=dict(quick=75, thorough=600),
@@ -340,7 +340,7 @@ CHECKS = {
              "flow - topology discovery (cluster source), checkpoint load, PSYNC, full sync with 2 workers, incremental sync, source reconnect, restart after a target "
              "error, refused source password - and the restore / rump / dump paths run with the tool's logger redirected to a buffer, at debug level (every statement on "
              "the path formats its arguments) and at info level. After each execution the buffer, json and %v renderings of conf.GetSafeOptions(), DbSyncer.GetExtraInfo() "
-             "and metric.NewMetricRest() are scanned. Coverage is reported as the set of distinct log call sites (file:line) that fired. A third part drives every connection helper of utils.go against every environment answer (dial refused, AUTH accepted / rejected / unknown to the peer and echoed back, peer closes, cluster start nodes unreachable, a standalone peer behind a loopback listener for the cluster client) x log level x auth_type. The connection-helper part also drives GetSlotDistribution; the error texts returned by the helpers whose callers log them (everything except AuthPassword, whose error every caller discards) are judged like log lines.",
+             "and metric.NewMetricRest() are scanned. Coverage is reported as the set of distinct log call sites (file:line) that fired. A third part drives every connection helper of utils.go against every environment answer (dial refused, AUTH accepted / rejected / unknown to the peer and echoed back, peer closes, cluster start nodes unreachable, a standalone peer behind a loopback listener for the cluster client) x log level x auth_type. The connection-helper part also drives GetSlotDistribution; the error texts returned by the helpers whose callers log them (everything except AuthPassword, whose error every caller discards) are judged like log lines. A sync scenario starts from an existing checkpoint (the first PSYNC is answered +CONTINUE) and loses the source link afterwards.",
         note="a monitor can only speak for the statements that the explored paths reach; the evidence lists them. main.go (startup echo) does not compile on the pinned tree, so the echo is checked at conf.GetSafeOptions(), the only thing it prints",
         rule="execution = (path, log level, source type, resume, fault); states = distinct log call sites that fired; non-trivial = all executions (each authenticates with both sentinels)",
         parts=[dict(pkg="./redis-shake/dbSync", harness=["dbsync"], test="^TestVerif_C19$", shards=16, gomaxprocs=2, budget=dict(quick=75, thorough=300)),
